@@ -93,7 +93,7 @@ def inject(rng, segs, d, rows, force_kind=None, force_i=None):
         if force_kind is not None:
             kind = force_kind
         kids = node.children
-        if sid in ('HL', 'LX', 'BHT') and kind not in ('too_many_elements',):
+        if sid in ('HL', 'LX', 'BHT') and kind not in ('too_many_elements',) and not (sid == 'BHT' and kind in ('bad_time', 'bad_date')):
             continue            # numbering / hierarchy / transaction-type elements decide how OTHER segments are matched
         if kind in ('too_long', 'too_short', 'bad_code', 'bad_class', 'bad_date', 'bad_time', 'missing_required_ele', 'not_used_ele'):
             cands = []
@@ -117,7 +117,8 @@ def inject(rng, segs, d, rows, force_kind=None, force_i=None):
                 if kind == 'bad_date' and present and c.usage != 'N' and ty in ('DT', 'D8') and mx >= 8:
                     cands.append((k, '20040230', ['8']))
                 if kind == 'bad_time' and present and c.usage != 'N' and ty == 'TM':
-                    cands.append((k, '2560', ['9']))
+                    # every way a time can be impossible: hour, minute (with a legal hour), second
+                    cands.append((k, rng.choice(['2560', '2400', '1275', '0960', '0099', '123060'][:5 if mx < 6 else 6]), ['9']))
                 if kind == 'missing_required_ele' and present and c.usage == 'R' and k > 0 and not codes:
                     cands.append((k, '', ['1']))
                 if kind == 'not_used_ele' and c.usage == 'N' and not present and k < len(parts) + 3:
@@ -314,6 +315,10 @@ def run(ctx, report):
                      and getattr(r[2].parent, 'usage', None) == 'R']
         rng.shuffle(req_loops)
         plan += [('missing_required_loop', i) for i in req_loops[:(8 if thorough else 5)]]
+        tms = [i for i, r in enumerate(rows) if r[2] is not None and r[1] not in docgen.ENVELOPE and r[1] not in ('HL', 'LX')
+               and any((not c.is_composite()) and walk_gen.de_of(c)['data_type'] in ('TM', 'DT', 'D8') for c in r[2].children)]
+        rng.shuffle(tms)
+        plan += [(rng.choice(['bad_time', 'bad_date']), i) for i in tms[:(6 if thorough else 3)]]
         dtps = [i for i, r in enumerate(rows) if r[1] == 'DTP' and r[2] is not None]
         rng.shuffle(dtps)
         plan += [('wrong_format', i) for i in dtps[:(6 if thorough else 3)]]
